@@ -19,13 +19,19 @@ func init() {
 			Name: "min",
 			Args: []*slip.DocArg{
 				{
+					Name: "real",
+					Type: "real",
+					Text: "The first number to find the minimum of.",
+				},
+				{Name: "&rest"},
+				{
 					Name: "reals",
 					Type: "real",
-					Text: "The numbers to find the minimum of.",
+					Text: "The other numbers to find the minimum of.",
 				},
 			},
 			Return: "real",
-			Text:   `__min__ returns the minimum value of the _reals_.`,
+			Text:   `__min__ returns the minimum value of _real_ and the _reals_.`,
 			Examples: []string{
 				"(< 5) => 5",
 				"(< 1/2 0.6) => 0.6",
